@@ -26,6 +26,9 @@ H_CONFIGS = {
     # the repaired design: every invariant
     "fixed": ('{"echo"}', "{0, 1}", 3, 1, 1, 10, dict(KeyByCtx=True, SubBeforeAnnounce=True, CompactClientUnreg=True),
               "C17_RestoresActive C17_NoReexecution C16_AtMostOneResponder C16_ReplacedIsStopped C16_RegisteredImpliesSubscribed"),
+    # thorough only: one more client action / a second context with a restart
+    "call4": ('{"two"}', "{0}", 4, 0, 2, 14, {}, "C16_AtMostOneResponder C16_ReplacedIsStopped"),
+    "restart2": ('{"echo"}', "{0, 1}", 3, 1, 1, 10, {}, "C17_NoReexecution C16_AtMostOneResponder"),
 }
 H_QUICK = ["call", "life", "head", "all", "restart1", "fixed"]
 # (config, flag, value, invariant TLC must report): mechanisms switched off + named deviations of the code
@@ -75,6 +78,7 @@ C_CONFIGS = {
     "ctx": ('{"a"}', "{0, 1}", '{"two", "err"}', 3, 1, 12, {}, None),
     "fixed": ('{"a"}', "{0, 1}", '{"two", "err"}', 3, 1, 12, dict(KeyByCtx=True), "C19_LatestValidDefinition"),
 }
+C_CONFIGS["one4"] = ('{"a"}', "{0}", '{"two", "err", "bad"}', 4, 1, 14, {}, "C19_LatestValidDefinition")     # thorough only
 C_QUICK = ["one", "names", "ctx", "fixed"]
 C_MUTANTS = [
     ("one", "OneTerminal", False, "C19_AtMostOneTerminal"),
@@ -115,6 +119,7 @@ G_CONFIGS = {
     "duplex": ('{"a"}', "{0}", '{"dup"}', 4, 1, 1, 12, {}, "C17_GeneratorsRestored"),
     "fixed": ('{"a"}', "{0, 1}", '{"two"}', 2, 1, 1, 12, dict(KeyByCtx=True, CompactByRef=True, Panics=False), "C18_StartedTaskStops C17_GeneratorsRestored"),
 }
+G_CONFIGS["cycle3"] = ('{"a"}', "{0}", '{"two", "zero", "nocontent"}', 3, 1, 2, 16, {}, "C18_StartedTaskStops")   # thorough only
 G_QUICK = ["cycle", "zero", "bad", "duplex", "fixed1", "fixed"]
 G_MUTANTS = [
     ("cycle", "StopLast", False, "C18_RecvInOrderAndComplete"),
